@@ -122,4 +122,16 @@ PairMenu ==
         Cons(Op(66), L(<<Atom(<<63>>), Atom(<<3>>), Atom(Coin1Id)>>)), Cons(Op(67), L(<<Atom(<<63>>), Atom(<<3>>), Atom(Coin1Id)>>)),
         Cons(Op(66), L(<<Atom(<<18>>), Atom(<<3>>), Atom(Z1)>>)), Cons(Op(67), L(<<Atom(<<18>>), Atom(<<3>>), Atom(Z1)>>)),
         Cons(Op(67), L(<<Atom(<<18>>), Atom(<<4>>), Atom(Z1)>>))}
+\* lock families (after-lock, before-lock) over three adjacent values: every 3-subset holds the foldings and the
+\* parse-time conflict detection in every order (e.g. after 5, before 6, before 5)
+LockFamilies == {<<82, 86>>, <<80, 84>>, <<83, 87>>, <<81, 85>>}
+LockV3 == {<<5>>, <<6>>, <<7>>}
+LockConds(fam) == {Cons(Op(op), L(<<Atom(v)>>)) : op \in {fam[1], fam[2]}, v \in LockV3}
+SeqOfSet(S) == LET RECURSIVE G(_)
+                   G(T) == IF T = {} THEN <<>> ELSE LET x == CHOOSE x \in T : TRUE IN <<x>> \o G(T \ {x})
+               IN G(S)
+Idx3 == (1..6) \X (1..6) \X (1..6)
+\* canonical (increasing) selections and all orders of three distinct conditions of one family
+LockTriplesCanon == UNION {LET q == SeqOfSet(LockConds(fam)) IN {<<q[t[1]], q[t[2]], q[t[3]]>> : t \in {u \in Idx3 : u[1] < u[2] /\ u[2] < u[3]}} : fam \in LockFamilies}
+LockTriplesAll == UNION {LET q == SeqOfSet(LockConds(fam)) IN {<<q[t[1]], q[t[2]], q[t[3]]>> : t \in {u \in Idx3 : u[1] # u[2] /\ u[2] # u[3] /\ u[1] # u[3]}} : fam \in LockFamilies}
 =============================================================================
